@@ -2,6 +2,8 @@ package rules
 
 import (
 	"fmt"
+	"sort"
+	"strings"
 
 	"nechk/core"
 
@@ -81,6 +83,7 @@ func sameAs(v, target ssa.Value) bool {
 func c10(c *Ctx) {
 	p, r := c.P, c.R
 	r.Rule("R-C10.1", "in rotation.RotateNodeCredentials the AuthorizeNode call is cut by success of DecryptMessage(req.EncryptedFetchNodeCredentialsRequest, n, fetchRequest) for a record n loaded by the key ID of req.CertificatePublicKeyPkix or an element of the node-ID set of req.NodeId (nil-phi sensitive); the request passed on is the decrypted one")
+	r.Rule("R-C10.6", "a request that names a node ID is authenticated only against that node's records: the record set built from the key-ID lookup (KeyIdFromPkix of the request's unauthenticated certificate key) is reachable only where req.NodeId is empty or the storage cannot look up by node ID")
 	r.Rule("R-C10.2", "the AuthorizeNode option list carries WithState(n'.State) of the authenticating record")
 	r.Rule("R-C10.3", "the reply is EncryptMessage(FetchNodeCredentials(fetchRequest), n') with n' a clone of the authenticating record; EncryptMessage never uses the previous key")
 	r.Rule("R-C10.4", "AuthorizeNode refuses token-sized nonces and existing records (R-C01.6, evaluated here too)")
@@ -126,6 +129,7 @@ func c10(c *Ctx) {
 		r.Unk("R-C10.1", name+" anchors", p.Pos(fn.Pos()), fmt.Sprintf("request param=%v AuthorizeNode calls=%d DecryptMessage calls=%d", req != nil, len(auths), len(decs)))
 		return
 	}
+	keyIdSets := map[*ssa.Alloc]bool{}
 	// approved decrypt calls
 	approved := map[*ssa.Call]bool{}
 	var fetchReq ssa.Value
@@ -153,6 +157,7 @@ func c10(c *Ctx) {
 						return
 					}
 					if al, isAl := src.(*ssa.Alloc); isAl && namedType(al.Type(), typesPkg, "NodeInformationSet") {
+						keyIdSets[al] = true
 						good := false
 						for _, st := range storesToField(al.Parent(), "types.NodeInformationSet", "Nodes") {
 							if core.PathOf(st.Addr).Root != al {
@@ -187,6 +192,31 @@ func c10(c *Ctx) {
 			r.Check(okCt && okRec, "R-C10.1", construct+" operands", p.Pos(d.Pos()), "decrypts req.EncryptedFetchNodeCredentialsRequest under "+why,
 				fmt.Sprintf("decrypt does not authenticate the request against a stored record of the identified node (ciphertext=%s ok=%v; key source: %s)", ct.String(), okCt, why))
 		})
+	}
+	// R-C10.6
+	{
+		gNoNodeId := core.Guard{Name: "req.NodeId empty or storage is no NodeIdLoader", Match: func(cond ssa.Value) (int, bool) {
+			// !ok of storage.(NodeIdLoader)
+			if ex, isEx := cond.(*ssa.Extract); isEx && ex.Index == 1 {
+				if ta, isTA := ex.Tuple.(*ssa.TypeAssert); isTA && ta.CommaOk && strings.HasSuffix(ta.AssertedType.String(), "nodeenrollment.NodeIdLoader") {
+					return 1, true
+				}
+			}
+			g := strEmptyGuard("req.NodeId", func(pp core.Path) bool { return pp.Root == ssa.Value(req) && pp.HasFields("NodeId") })
+			return g.Match(cond)
+		}}
+		var als []*ssa.Alloc
+		for al := range keyIdSets {
+			als = append(als, al)
+		}
+		sort.Slice(als, func(i, j int) bool { return als[i].Pos() < als[j].Pos() })
+		for i, al := range als {
+			res := core.CutReach(p, fn, gNoNodeId, al.Block())
+			r.CutOb(p, "R-C10.6", fmt.Sprintf("%s key-ID record set#%d", name, i), p.Pos(al.Pos()), res, gNoNodeId)
+		}
+		if len(als) == 0 {
+			r.OK("R-C10.6", name+" key-ID record set", p.Pos(fn.Pos()), "no record set is built from a key-ID lookup")
+		}
 	}
 	gDec := core.ErrNil("DecryptMessage(req.Encrypted..., record, fetchRequest)", func(x *ssa.Call) bool { return approved[x] })
 	for i, ac := range auths {
